@@ -80,7 +80,7 @@ def run(ctx):
                     r.shuffle(cs)
                     pm = vers.parse_clist(state_model)
                     r.shuffle(pm)
-                    rng = type(rng)(constraints=cs)
+                    rng = type(rng)(constraints=tuple(cs) if r.random() < 0.5 else cs)
                     mreq = [f"sort {vers.clist_text(pm)}"]
                 elif op == "simplify":
                     rng = type(rng)(constraints=vc.VersionConstraint.simplify(list(rng.constraints)))
